@@ -331,6 +331,17 @@ func GenSession(prop string, seed uint64, thorough bool) *Scenario {
 		}
 		if c.Transport == "polling" && (wsOK || wtOK) && o.AllowUpgrades && g.p(p.pUpgrade) {
 			c.Upgrade = stream()
+			// while upgrading, a client holds back its writes (pongs, v3 pings) until the
+			// server's 100 ms check released the poll: heartbeat settings tighter than that
+			// make a conformant client time out, which is not a fault-free scenario
+			if (c.EIO == 4 && pt < 250+8*c.LatencyMs) || (c.EIO != 4 && pi+pt-c.V3PingMs < 250+8*c.LatencyMs) {
+				c.Upgrade = ""
+			}
+			// an upgrade needs the 100 ms check tick to release the poll: an upgrade timeout
+			// at or below that makes every conformant upgrade fail, which is not fault-free
+			if c.Upgrade != "" && o.UpgradeTimeoutMs != 0 && o.UpgradeTimeoutMs < 300+8*c.LatencyMs {
+				o.UpgradeTimeoutMs = 1000
+			}
 			if c.Upgrade == "webtransport" && c.EIO != 4 {
 				c.Upgrade = ""
 				if wsOK {
